@@ -7,8 +7,8 @@ from common import Report, log
 
 MANIFEST = dict(
     technique='Coq proofs that function-by-function Gallina models of the expression parser and of the statement parser map every rendering of every reference expression / reference statement (all parenthesisation choices) to the prescribed tree + model-vs-code correspondence for parseExpression and parseStatement on rendered, corrupted and unsupported token lists + prescribed-tree oracle (generator knows the tree) on the whole statement surface',
-    text='Spec/RefGrammar.v defines the reference expressions (OR < AND < NOT < comparison/IS NULL/IN/BETWEEN/LIKE < || < + - < * / % < :: < primary; function calls, CASE, CAST, tuples), their token renderings for every choice of redundant parentheses, and Model/Expr.v the prescribed tree ast_of; Spec/RefStmt.v the reference statements (SELECT with DISTINCT [ON], aliases, FROM lists, all joins with ON/USING, WHERE, GROUP BY with ROLLUP/CUBE, HAVING, ORDER BY with direction and NULLS, LIMIT, OFFSET, FETCH; set operations; WITH [RECURSIVE] with column lists and [NOT] MATERIALIZED; INSERT with VALUES rows or a query, ON CONFLICT and RETURNING; UPDATE; DELETE), their renderings and ast_of_stmt. Model/ExprParse.v mirrors expressions.go and Model/StmtParse.v mirrors parseStatement / select.go / cte.go / the cores of dml.go function by function (cursor, depth counter, quirks, defect switches). Theorem C03_parse_render_expr_ext: for EVERY reference expression, every parenthesisation, every admissible follow token list, every depth limit and every nesting within it the model parser returns exactly (ast_of e, rest) - precedence, left associativity, parenthesis override, everything written appears, nothing else appears, never rejected, in one statement, by induction with one lemma per production. Theorems C03_parse_render_select_partial and C03_parse_render_stmt_partial: the same equation for parseStatement on every reference SELECT / every reference statement, every parenthesisation of every expression in it, by one lemma per clause composed along the token list (partial: the clauses outside Spec/RefStmt.v are listed in Props/C03.v). Refuted-witness theorems for the defect switches (two repaired in /repo, one - an alias without AS after a bare column - pinned by the project tests and kept as known finding). The models are tied to the code on every run: the real parseExpression / parseStatement (hooks) and the models are run on the same token lists (rendered, corrupted, unsupported) and must agree on accept/reject, consumed tokens and whole tree; Spec renderings and prescribed trees are cross-checked against the generator and the real tokenizer. Independently, the real parser output for generated statements of the whole documented surface (queries, DML, MERGE, DDL) is compared field by field with the tree the generator prescribes.',
-    note=common.BASE_NOTE + "Lexing is C04's theorem: C03 checks per run that the real tokenizer+converter produce the token list the renderer states. Clauses outside the reference grammar of Spec/RefStmt.v (derived tables, LATERAL, GROUPING SETS, FOR, sub-query expressions, window functions, MERGE, DDL) are covered by the prescribed-tree oracle and, where modelled, the correspondence only; ASCII-only case folding in the model; models.TokenType numbers of statement keywords are written in Spec/RefStmt.v (drift shows as a correspondence disagreement).",
+    text='Spec/RefGrammar.v defines the reference expressions (OR < AND < NOT < comparison/IS NULL/IN/BETWEEN/LIKE < || < + - < * / % < :: < primary; function calls, CASE, CAST, tuples), their token renderings for every choice of redundant parentheses, and Model/Expr.v the prescribed tree ast_of; Spec/RefStmt.v the reference statements (SELECT with DISTINCT [ON], aliases, FROM lists, all joins with ON/USING, WHERE, GROUP BY with ROLLUP/CUBE/GROUPING SETS, HAVING, ORDER BY with direction and NULLS, LIMIT, OFFSET, FETCH, the locking clause FOR UPDATE | NO KEY UPDATE | SHARE | KEY SHARE [OF ...] [NOWAIT | SKIP LOCKED]; set operations; WITH [RECURSIVE] with column lists and [NOT] MATERIALIZED; INSERT with VALUES rows or a query, ON CONFLICT and RETURNING; UPDATE; DELETE; MERGE with every documented WHEN kind x action pair), their renderings and ast_of_stmt. Model/ExprParse.v mirrors expressions.go and Model/StmtParse.v mirrors parseStatement / select.go (incl. parseForClause) / cte.go / grouping.go / the cores of dml.go (incl. parseMergeStatement) function by function (cursor, depth counter, quirks, defect switches). Theorem C03_parse_render_expr_ext: for EVERY reference expression, every parenthesisation, every admissible follow token list, every depth limit and every nesting within it the model parser returns exactly (ast_of e, rest) - precedence, left associativity, parenthesis override, everything written appears, nothing else appears, never rejected, in one statement, by induction with one lemma per production. Theorems C03_parse_render_select_partial and C03_parse_render_stmt_partial: the same equation for parseStatement on every reference SELECT / every reference statement, every parenthesisation of every expression in it, by one lemma per clause composed along the token list (partial: the clauses outside Spec/RefStmt.v are listed in Props/C03.v). Refuted-witness theorems for the defect switches (two repaired in /repo, one - an alias without AS after a bare column - pinned by the project tests and kept as known finding). The models are tied to the code on every run: the real parseExpression / parseStatement (hooks) and the models are run on the same token lists (rendered, corrupted, unsupported) and must agree on accept/reject, consumed tokens and whole tree; Spec renderings and prescribed trees are cross-checked against the generator and the real tokenizer. Independently, the real parser output for generated statements of the whole documented surface (queries, DML, MERGE, DDL) is compared field by field with the tree the generator prescribes.',
+    note=common.BASE_NOTE + "Lexing is C04's theorem: C03 checks per run that the real tokenizer+converter produce the token list the renderer states. MERGE, GROUPING SETS and the FOR clause are in the reference grammar of Spec/RefStmt.v, in the model correspondence (targeted reference families: the WHEN kind x action table and its ordered pairs, set shapes, 36 lock x OF x wait combinations) and in the statement theorem; clauses outside the reference grammar (derived tables, LATERAL, sub-query expressions, window functions, DDL) are covered by the prescribed-tree oracle and, where modelled (OVER ( window specification ) with both frame forms is), the correspondence only; known findings: implicit-alias-bare-column, setop-trailing-order-by, derived-table-set-operation; ASCII-only case folding in the model; models.TokenType numbers of statement keywords are written in Spec/RefStmt.v (drift shows as a correspondence disagreement).",
     design='6/C03')
 
 DF_NONE = "(DFlags false false)"
@@ -338,7 +338,19 @@ def run_statements_coq(rp, tier, rng):
         conv = S.convert(s, rd.log)
         if conv is None:
             continue
-        ref.append(dict(id="sref:%d" % i, s=s, words=words, sql=" ".join(words), term=conv[0], srho=conv[1], want=pres.ast(s), feats=G.features(s)))
+        ref.append(dict(id="sref:%d" % i, s=s, words=words, sql=" ".join(words), term=conv[0], srho=conv[1], want=pres.ast(s), feats=G.features(s), fam="random"))
+    # targeted reference statements: MERGE (kind x action table, clause pairs, aliases), GROUPING SETS shapes, the FOR clause combinations
+    unconverted = []
+    for fam, mk in S.FAMILIES:
+        for i, s in enumerate(mk(rng, tier)):
+            rd = S.LoggingRenderer(rng, rng.choice([0.0, 0.0, 0.1, 0.25]))
+            words = rd.S(s)
+            conv = S.convert(s, rd.log)
+            if conv is None:
+                unconverted.append(dict(id="sref:%s:%d" % (fam, i), sql=" ".join(words)))
+                continue
+            ref.append(dict(id="sref:%s:%d" % (fam, i), s=s, words=words, sql=" ".join(words), term=conv[0], srho=conv[1], want=pres.ast(s),
+                            feats=G.features(s), fam=fam))
     wide_gen = G.StmtGen(rng)
     wide = []
     for i in range(200 if quick else 3000):
@@ -350,7 +362,7 @@ def run_statements_coq(rp, tier, rng):
         wide.append(dict(id="swide:%d" % i, words=words, sql=" ".join(words)))
     other = []
     src = ref + wide
-    for i in range(330 if quick else 6000):
+    for i in range(420 if quick else 7000):
         c = src[rng.randrange(len(src))]
         w = list(c["words"])
         if len(w) > 60:
@@ -391,11 +403,18 @@ def run_statements_coq(rp, tier, rng):
     ref_rejected = [c for c in refu if not c["out"]["accepted"]]
     rp.cov["stmt_coq_reference_statements"] = len(refu)
     rp.cov["stmt_coq_reference_features"] = dict(sorted(_count(f for c in refu for f in c["feats"]).items()))
+    rp.cov["stmt_coq_reference_families"] = dict(sorted(_count(c["fam"] for c in refu).items()))
+    fam = lambda f: [c["s"] for c in refu if c["fam"] == f]
+    rp.cov["stmt_coq_merge_clause_pairs"] = len({tuple((w["type"], w["action"]["type"]) for w in s["whens"]) for s in fam("merge") if len(s["whens"]) == 2})
+    rp.cov["stmt_coq_merge_alias_forms"] = len({(bool(s["talias"]), s["tas"] and bool(s["talias"]), bool(s["salias"]), s["sas"] and bool(s["salias"]), s["into"]) for s in fam("merge")})
+    rp.cov["stmt_coq_grouping_sets_shapes"] = len({tuple("bare" if isinstance(st, tuple) else len(st) for st in g[1])
+                                                   for s in fam("grouping_sets") for g in s["group_by"] if g[0] == "sets"})
+    rp.cov["stmt_coq_for_combinations"] = len({(f["lock"], len(f["tables"]), f["wait"]) for s in fam("for") for f in [s.get("for_")] if f})
     rp.cov["stmt_corr_cases"] = len(items)
     rp.cov["stmt_corr_agree_accept"] = sum(1 for c, r in zip(items, res) if r == 0 and c["out"]["accepted"])
     rp.cov["stmt_corr_agree_reject"] = sum(1 for c, r in zip(items, res) if r == 0 and not c["out"]["accepted"])
     rp.cov["stmt_corr_unmodelled_branch"] = sum(1 for r in res if r == 2)
-    return dict(ref=refu, gen_bad=gen_bad, bad=bad, ref_unmodelled=ref_unmodelled, ref_rejected=ref_rejected, n=len(items))
+    return dict(ref=refu, gen_bad=gen_bad, bad=bad, ref_unmodelled=ref_unmodelled, ref_rejected=ref_rejected, n=len(items), unconverted=unconverted)
 
 
 def _count(it):
@@ -503,6 +522,10 @@ def run(tier):
     rp.obligation("generator = Spec.RefStmt.render_stmt / ast_of_stmt on reference statements", not sc["gen_bad"], "%d" % len(sc["gen_bad"]))
     rp.obligation("reference statements of Spec/RefStmt.v are inside the model (no unmodelled branch) and accepted by the real parser",
                   not sc["ref_unmodelled"] and not sc["ref_rejected"], "%d unmodelled, %d rejected" % (len(sc["ref_unmodelled"]), len(sc["ref_rejected"])))
+    rp.obligation("targeted reference statements (MERGE, GROUPING SETS, FOR) are terms of Spec/RefStmt.v", not sc["unconverted"], "%d not convertible" % len(sc["unconverted"]))
+    for c in sc["unconverted"][:2]:
+        rp.violation({"kind": "correspondence", "broken": "targeted reference statement has no Spec/RefStmt.v term (lib/c03s.py)", "sql": c["sql"]},
+                     "sgen_" + safe_id(c["id"]), no_input=True)
     stmt_oracle_ids = {c["sql"] for c in sviol}
     for c, r in sc["bad"][:5]:
         o = c["out"]
